@@ -59,7 +59,11 @@ def shape_form(rng, i):
     ]
     f.choices = {"l1": [{"name": "x", "label::en": shapes[0] if "instance(" not in shapes[0] else "X", "label::fr": "F"},
                         {"name": "y", "label::en": shapes[3] if "instance(" not in shapes[3] else "Y", "label::fr": shapes[2] if "instance(" not in shapes[2] else "G"}]}
-    f.settings = {"form_title": rng.choice(["T", " T  x ", "a\n\nb", "t < & >"]), "form_id": "f"}
+    # settings texts that are awkward for anything a layout might add around the document (comments, processing instructions, CDATA)
+    f.settings = {"form_title": rng.choice(["T", " T  x ", "a\n\nb", "t < & >", "A -- B", "Baseline --- household roster", "Round 2 ---- DRAFT", "x --> y", "<!-- t -->", "a ]]> b", "<?t?>", "-"]),
+                  "form_id": rng.choice(["f", "f", "roster---v2", "a--b", "f-", "-->"])}
+    if rng.random() < 0.5:
+        f.settings["version"] = rng.choice(["1", "v--1", "2---3", "2024-01-01", "--", "?>"])
     return f, shapes
 
 
